@@ -198,6 +198,59 @@ def run(cx):
     cx.ob("R18.deletes", df.id + "|plans-deletes", len(dd) >= 2 and len(dfl) >= 2,
           "diff must plan deletion of vanished entity directories, selectable directories, nested files and root "
           "files (found %d directory and %d file deletions)" % (len(dd), len(dfl)), df.loc())
+    # the survival test that guards a directory deletion is keyed by every name component of that directory
+    for a in dd:
+        pth = op_place(a.ops[0])
+        # depth = number of Path::join hops between the deleted path and the artifact directory argument
+        depth, cur = 0, pth.local
+        for _ in range(6):
+            ident = path_identity(df, cur)
+            if ident is None or ident[0] != "join":
+                break
+            depth += 1
+            j = df.blocks[ident[1]].term
+            cur = op_place(j.args[0]).local
+        guards = [t for t in df.calls() if term_calls(t, r"HashSet::<T, S, A>::contains$|HashMap::<K, V, S, A>::contains_key$")
+                  and df.dominates(t.bb, a.bb)]
+        if not guards:
+            cx.ob("R18.deletes", "%s|dir-delete-depth%d-guarded" % (df.id, depth), False,
+                  "a directory deletion is not guarded by a survival test", df.loc(a.line))
+            continue
+        g = max(guards, key=lambda t: len(df.dominators()[t.bb]))
+        kty = (g.j.get("atys") or ["", ""])[1]
+        comps = len(re.findall(r"\b(EntityName|SelectableName|ArtifactFileName)\b", kty))
+        cx.ob("R18.deletes", "%s|dir-delete-depth%d-key-arity" % (df.id, depth), comps == depth,
+              "the survival set consulted before deleting a directory at depth %d is keyed by %d name component(s) "
+              "(%s): a directory whose last name also exists under another parent is considered alive and its stale "
+              "artifacts stay on disk" % (depth, comps, kty), df.loc(g.line))
+    # who may write CompilerState.file_system_state
+    fbc = cx.mir("isograph_compiler", "isograph_lsp", "isograph_cli")
+    n = 0
+    for h in fbc.fns.values():
+        if "::tests::" in h.id:
+            continue
+        hits = []
+        for x in stores_to_field(h, "file_system_state"):
+            # forgetting the state (storing None) is always safe: the next compile recreates everything
+            if hasattr(x, "rv") and x.ops and op_place(x.ops[0]) is not None and any(
+                    hasattr(d, "rv") and d.rv == "aggregate" and d.j.get("variant") == "None"
+                    for d in local_defs(h, op_place(x.ops[0]).local)):
+                continue
+            hits.append(x)
+        for t in h.calls():
+            if term_calls(t, r"Option::<T>::(replace|insert|get_or_insert|get_or_insert_with)$|mem::(replace|swap)$"):
+                a0 = op_place(t.args[0])
+                if a0 is not None and local_flows_from(h, a0.local, lambda d: hasattr(d, "rv") and d.rv == "ref" and
+                                                       d.place is not None and "file_system_state" in d.place.fields(), 4) is not None:
+                    hits.append(t)
+        for x in hits:
+            n += 1
+            owner = h.root or h.id
+            cx.ob("R18.state-owners", owner + "|writes-file_system_state", owner.endswith("batch_compile::compile"),
+                  "the in-memory FileSystemState is written outside compile(): a state that describes a different "
+                  "compiler state / artifact directory is diffed against, so required files are never written",
+                  h.loc(x.line))
+    cx.count(n)
     # state construction keys by (entity, selectable, file name) and hashes the content
     fr = fb.methods("from", impl_for=r"FileSystemState$", trait=r"From$")
     if len(fr) != 1:
